@@ -15,7 +15,10 @@ SPEC = {'level': 'exploration',
              'cases_quick': 1200,
              'cases_thorough': 40000,
              'rule': 'bulk scriptSig at the 1,000,000-byte no-witness boundary; all non-trivial'},
-            {'kind': 'enum', 'binary': 'vh_c03', 'target': 'c03_ruletable', 'rule': 'exhaustive 2^9 rule-violation combinations x 4 variants'}]}
+            {'kind': 'enum', 'binary': 'vh_c03', 'target': 'c03_ruletable', 'rule': 'exhaustive 2^9 rule-violation combinations x 4 variants'},
+        # coverage-guided libFuzzer campaign on the same target (thorough tier only; fz tree = g++ trace-pc + covshim)
+        fuzz('vh_c03', 'c03_checktx', 300, max_len=700),
+    ]}
 
 META = {'level_text': 'Generated search (1.5M structured transactions per quick run, boundary-biased) plus an exhaustive 2^9 x 4 rule-combination table, each '
                'compared on (accept, reject reason) with a reference model written from the statement. Exploration: it samples the input space; it does not '
